@@ -11,6 +11,11 @@ use vcoll::BTreeMap;
 use vcoll::vvec::VVec as Vec;
 
 use crate::env::*;
+// timers are immediately ready in the de-sugared text (retry / back-off loops a change may introduce must still compile)
+#[allow(unused_imports)]
+use std::time::Duration;
+#[allow(dead_code)]
+fn sleep(_d: Duration) {}
 
 #[allow(unused_macros)]
 macro_rules! info {
